@@ -524,6 +524,10 @@ type mdSpec struct {
 	AlignCbs    []mdAlignCb `json:"align_cbs,omitempty"`
 	CbAfterWrap bool        `json:"cb_after_wrap,omitempty"`
 	Renders     int         `json:"renders,omitempty"`
+	// a history of SetProperty calls on columns over several keys, made between
+	// build and render (c08_r6.go); with it the spec's own earlier renders are
+	// dropped, so that the wrapper is made (and the history runs) after the build
+	ColProps []mdPropOp `json:"col_props,omitempty"`
 }
 
 // normalise applies the rules above; Run, view and the shrinker all go through it
@@ -532,6 +536,9 @@ func (ms mdSpec) normalise() mdSpec {
 		ms.Stages, ms.Mutations, ms.StageFaults, ms.FaultAt, ms.Reenter = nil, nil, false, 0, 0
 	} else {
 		ms.Renders, ms.CbAfterWrap = 0, false
+	}
+	if len(ms.ColProps) > 0 {
+		ms.Stages, ms.Mutations, ms.StageFaults = nil, nil, false
 	}
 	if len(ms.Stages) > 0 || len(ms.Mutations) > 0 || ms.StageFaults {
 		ms.ZeroLast = 0 // no point between build and final render to add them at
@@ -589,12 +596,13 @@ func init() {
 			"every shape with header in {none,0,1,2 cells} and up to 3 rows over {separator,0,1,2 cells} with texts from a pipe/backslash/entity/LF/space/wide-character alphabet and a random alignment assignment; " +
 			"every alignment assignment {unset,L,R,C} on column 0 and each column of four fixed hostile grids with <= 2 columns; every atom of the alphabet in first/last/padded position; random tables to 6x6 with random alignments; " +
 			"a case is non-trivial when the table has a column and a header (rendering is attempted); distinct = distinct (view, outcome, output)",
-		Exhaustive: "shapes (header x row-sequence up to length 3); all 4^(ncols+1) alignment assignments on four fixed grids with 1 and 2 columns; every alphabet atom (hostile and interpretable) in 7 field positions; zero-value rows in all 8 first/last count patterns of 3 small tables; all 29 rune items and 12 core texts x item kinds in 7 field positions; render-time alignment callbacks: owner kind x time x written column x 2 value sequences",
+		Exhaustive: "shapes (header x row-sequence up to length 3); all 4^(ncols+1) alignment assignments on four fixed grids with 1 and 2 columns; every alphabet atom (hostile and interpretable) in 7 field positions; zero-value rows in all 8 first/last count patterns of 3 small tables; all 29 rune items and 12 core texts x item kinds in 7 field positions; render-time alignment callbacks: owner kind x time x written column x 2 value sequences; column-property histories: chain depth d <= 5 x position of the alignment x position of the entry touched x {re-set, remove}",
 		Gen: func(r *RNG, tier string) []json.RawMessage {
 			// NewRNG(seed) starts seed k at seed 1's state advanced by k-1 steps, so
 			// the streams of different seeds re-synchronise after a few cases and
 			// then generate the same list; restart from a hashed state instead
 			r = &RNG{s: r.U64()}
+			rp := &RNG{s: r.s ^ 0x9e3779b97f4a7c15} // column-property histories: a stream of their own
 			var out []json.RawMessage
 			addM := func(ms mdSpec) { out = append(out, mustJSON(ms)) }
 			// a zero-value row before and/or after about one table in six
@@ -622,6 +630,10 @@ func init() {
 					}
 					ms.Renders = 1 + r.Intn(3)
 					ms.CbAfterWrap = r.Bool()
+				}
+				// a history of column properties over several keys on about one table in six
+				if rp.Pct(16) {
+					ms.ColProps = randColProps(rp, 3)
 				}
 				addM(ms)
 			}
@@ -737,6 +749,9 @@ func init() {
 					}
 				}
 			}
+			// column-property histories: every chain depth, the alignment at every
+			// depth, a re-set / removal at every depth
+			mdColPropsStream(rp, tier, addM)
 			// zero-value rows at every position pattern of a small table
 			for code := 1; code < 9; code++ {
 				h := []ItemSpec{Str("h1"), Str("h2")}
@@ -779,6 +794,7 @@ func init() {
 					mdRegisterAlignCbs(t, markdown.Wrap(t), ms.AlignCbs, &wlog)
 				}
 				mt := markdown.Wrap(t)
+				mdApplyColProps(t, mt, ms.ColProps)
 				if len(ms.AlignCbs) > 0 && ms.CbAfterWrap {
 					mdRegisterAlignCbs(t, mt, ms.AlignCbs, &wlog)
 				}
@@ -789,7 +805,9 @@ func init() {
 				o = capture(w.Render)
 			}
 			v := ms.view() // judged against what was put in, not what the table now holds
-			// alignments: the last write of a render-time callback, else the build's
+			// alignments: the last write of a render-time callback, else of the
+			// column-property history, else the build's
+			mdColPropsExpect(&v, ms.ColProps)
 			for _, wr := range wlog {
 				if wr.col < len(v.Align) {
 					v.Align[wr.col] = wr.val
@@ -799,8 +817,8 @@ func init() {
 			return CaseOut{
 				Coq:        cqPair(cqPair(vc, mdWidthTable(v)), o.Coq()),
 				Desc:       mdDesc{Outcome: o, Sig: mdSig(v, o)},
-				Size:       ts.Size() + mdHeaderBytes(ts) + 2*(ms.ZeroFirst+ms.ZeroLast) + ms.cbSize(),
-				Tags:       append(append(append(append(shapeTags(v), mdTextTags(v)...), mdZeroTags(ms)...), mdCbTags(ms, ts, len(wlog))...), "outcome="+o.Kind),
+				Size:       ts.Size() + mdHeaderBytes(ts) + 2*(ms.ZeroFirst+ms.ZeroLast) + ms.cbSize() + 2*len(ms.ColProps),
+				Tags:       append(append(append(append(shapeTags(v), mdTextTags(v)...), mdZeroTags(ms)...), mdCbTags(ms, ts, len(wlog))...), append(mdColPropsTags(ms), "outcome="+o.Kind)...),
 				Key:        vc + o.Kind + string(o.Out),
 				Nontrivial: v.NCols > 0 && v.Header != nil,
 			}
@@ -927,6 +945,7 @@ func mdShrink(spec json.RawMessage) []json.RawMessage {
 	if ms.CbAfterWrap {
 		with(func(m *mdSpec) { m.CbAfterWrap = false })
 	}
+	mdShrinkColProps(ms, with)
 	return out
 }
 
